@@ -90,6 +90,18 @@ def choiOut (din dout r : Nat) (G : Nat → Nat → K) (T : Nat → Nat → K) (
 def adjacency (D : Nat → Nat → Nat) (i j : Nat) : Nat :=
   (if i < j then D i j else 0) + (if j < i then D j i else 0)
 
+/-- the rejection test of `rand_F2` (`_spf2.py:24-27`): `not_zero and array_equiv(ret, 0)` or `not_one and array_equiv(ret, 1)` -/
+def f2Rejected (notZero notOne : Bool) (x : List Nat) : Bool :=
+  (notZero && x.all (· == 0)) || (notOne && x.all (· == 1))
+
+/-- `rand_F2` as a function of the successive raw draws (`while True: ret = integers(0,2,size); if rejected: continue; break`):
+the first draw that is not rejected, and how many draws were consumed -/
+def f2Result (notZero notOne : Bool) : List (List Nat) → Option (List Nat × Nat)
+  | [] => none
+  | x :: rest =>
+    if f2Rejected notZero notOne x then (f2Result notZero notOne rest).map fun (r, k) => (r, k + 1)
+    else some (x, 1)
+
 /-! ### executable carrier: complex binary64 -/
 
 structure CFl where
